@@ -830,6 +830,14 @@ func (vc *VC) evalCall(env *Env, t CCall) Term {
 		n := *env
 		n.cur = env.fr.labels[id.Name]
 		return vc.evalTerm(&n, t.Args[1])
+	case "heapslice":
+		// heapslice(s): the backing array of s is an array allocated on its own (by make/append/a literal), not
+		// an array embedded in a struct or another array
+		x := vc.evalTerm(env, t.Args[0])
+		if x.Sort != SSlice {
+			vc.unsup("heapslice(): slice expected")
+		}
+		return tBool(fmt.Sprintf("(or (= (sl.base %s) 0) (and (= (refkind (sl.base %s)) 0) (= (rootof (sl.base %s)) (sl.base %s))))", x.S, x.S, x.S, x.S))
 	case "fmtv":
 		// fmtv(s): the text fmt's %v prints for slice s (uninterpreted function of its elements)
 		x := vc.evalTerm(env, t.Args[0])
@@ -979,10 +987,27 @@ func (vc *VC) evalCall(env *Env, t CCall) Term {
 		x := vc.evalTerm(env, t.Args[0])
 		return tInt("(dyntype " + x.S + ")")
 	case "typetag":
-		id := t.Args[0].(CIdent)
-		tt := env.lookupType(id.Name)
+		// typetag(T), typetag(*T), typetag(pkg.T): the tag dyntype() yields for values of that dynamic type
+		var tyName func(e CExpr) string
+		tyName = func(e CExpr) string {
+			switch a := e.(type) {
+			case CIdent:
+				return a.Name
+			case CField:
+				if id, ok := a.X.(CIdent); ok {
+					return id.Name + "." + a.Name
+				}
+			case CUn:
+				if a.Op == "*" {
+					return "*" + tyName(a.X)
+				}
+			}
+			return ""
+		}
+		name := tyName(t.Args[0])
+		tt := env.lookupType(name)
 		if tt == nil {
-			vc.unsup("typetag: unknown type %s", id.Name)
+			vc.unsup("typetag: unknown type %s", name)
 		}
 		return tInt(fmt.Sprint(vc.eng.typeTag(tt)))
 	}
